@@ -127,6 +127,22 @@ Proof.
     apply (Hc x Written E).
 Qed.
 
+Lemma durable_reachable : forall es s, run init es = Some s ->
+  (forall b, mem b (acked s) = true -> mem b (dest s) = true \/ mem b (queue s) = true) /\
+  (forall b, mem b (acked s) = true -> mem b (dest s) = true \/ mem b (need s) = true) /\
+  (forall b, mem b (dest s) = true -> mem b (src s) = true).
+Proof.
+  intros es s H. pose proof (inv_reachable es s H) as I.
+  exact (conj (I_durable s I) (conj (I_pending s I) (I_dest s I))).
+Qed.
+
+Lemma row_leaves_reachable : forall es s e s' b, run init es = Some s -> step s e = Some s' ->
+  mem b (queue s) = true -> mem b (queue s') = false -> mem b (dest s') = true.
+Proof. intros es s e s' b H. exact (row_leaves_after_ack s e s' b (inv_reachable es s H)). Qed.
+
+Lemma restart_reloads : forall s, exists s', step s ECrash = Some s' /\ need s' = queue s /\ queue s' = queue s /\ dest s' = dest s /\ acked s' = acked s.
+Proof. intros s. eexists. split; [reflexivity|]. repeat split. Qed.
+
 (* ================= eventual delivery: fault-free rounds ================= *)
 Lemma copy_ok_run s b : mem b (need s) = true -> cop s = [] ->
   exists s', run s (copy_ok b) = Some s' /\ need s' = del b (need s) /\ dest s' = add b (dest s) /\ acked s' = acked s /\
